@@ -37,7 +37,7 @@ cd /repo && git diff --quiet || { echo "repo dirty"; exit 2; }
 git apply $SRC/patch.diff
 for c in $CHECKS; do
   echo "== ./check $c quick with the change applied to /repo" | tee -a $OUT/verify.log
-  (cd /verif && ./check $c quick 2>&1 | grep -E "^(VIOLATION|HARNESS|KNOWN|UNREPRO|check=)" | cut -c1-400 | head -12) | tee -a $OUT/verify.log
+  (cd /verif && ./check $c quick 2>&1 | grep -E "^(VIOLATION|HARNESS|UNREPRO|NOTE|check=)" | cut -c1-400 | head -12) | tee -a $OUT/verify.log
 done
 git checkout -- .
 echo done
